@@ -10,7 +10,7 @@ package multiplex
 // ---------------------------------------------------------------------------
 // A connection's doneC is closed only inside closeOnce (so it is closed at most once);
 // the same holds for the multiplexer's doneC.
-//@ pure wfConn(c *conn) = allocated(c) && c.doneC != nil && (chanclosed(c.doneC) <==> done(c.closeOnce))
+//@ pure wfConn(c *conn) = allocated(c) && c.doneC != nil && (chanclosed(c.doneC) <==> done(c.closeOnce)) && c.readC != nil && !chanclosed(c.readC)
 //@ pure wfMux(m *mux) = m != nil && m.doneC != nil && m.trunk != nil && m.conns != nil && (chanclosed(m.doneC) ==> done(m.closeOnce))
 //@     && (forall id ConnID :: has(m.conns, id) ==> wfConn(m.conns[id]))
 //@     && (forall a ConnID, b ConnID :: has(m.conns, a) && has(m.conns, b) && m.conns[a] != m.conns[b] ==> m.conns[a].doneC != m.conns[b].doneC)
@@ -37,10 +37,10 @@ package multiplex
 
 //@ func mux.Close$1
 //@   props C11
-//@   requires wfMux(m) && !held(m.connLock) && !chanclosed(m.doneC)
+//@   requires wfMux(m) && !held(m.connLock) && rheld(m.connLock) == 0 && !chanclosed(m.doneC)
 //@   modifies lock(m.connLock), alllocks("multiplex.conn:closeOnce"), allchans("chan error"), chanstate(m.doneC), calls("chan.close"), calls("net.Conn.Close")
 //@   ensures [conns]  forall id ConnID :: has(m.conns, id) ==> chanclosed(m.conns[id].doneC) && done(m.conns[id].closeOnce)
-//@   ensures [done]   chanclosed(m.doneC) && !held(m.connLock)
+//@   ensures [done]   chanclosed(m.doneC) && !held(m.connLock) && rheld(m.connLock) == 0
 //@   ensures [trunk]  ncalls("net.Conn.Close") == old(ncalls("net.Conn.Close")) + 1 && callarg("net.Conn.Close", old(ncalls("net.Conn.Close")), 0) == m.trunk
 //@   loop 1 invariant held(m.connLock) && !chanclosed(m.doneC) && m.doneC != nil && m.trunk != nil && ncalls("net.Conn.Close") == old(ncalls("net.Conn.Close"))
 //@   loop 1 invariant forall id ConnID :: has(m.conns, id) ==> wfConn(m.conns[id])
@@ -49,9 +49,9 @@ package multiplex
 
 //@ func mux.Close
 //@   props C11
-//@   requires wfMux(m) && !held(m.connLock)
+//@   requires wfMux(m) && !held(m.connLock) && rheld(m.connLock) == 0
 //@   modifies lock(m.closeOnce), lock(m.connLock), alllocks("multiplex.conn:closeOnce"), allchans("chan error"), chanstate(m.doneC), calls("chan.close"), calls("net.Conn.Close")
-//@   ensures [closed] done(m.closeOnce) && result == nil && !held(m.connLock)
+//@   ensures [closed] done(m.closeOnce) && result == nil && !held(m.connLock) && rheld(m.connLock) == 0
 //@   ensures [first]  !old(done(m.closeOnce)) ==> chanclosed(m.doneC) && (forall id ConnID :: has(m.conns, id) ==> chanclosed(m.conns[id].doneC))
 //@                    && ncalls("net.Conn.Close") == old(ncalls("net.Conn.Close")) + 1
 //@   ensures [again]  old(done(m.closeOnce)) ==> ncalls("chan.close") == old(ncalls("chan.close")) && ncalls("net.Conn.Close") == old(ncalls("net.Conn.Close"))
@@ -75,7 +75,7 @@ package multiplex
 //@ func mux.write
 //@   props C10 C11
 //@   flag slice-within-len
-//@   requires wfMux(m) && !held(m.writeLock) && !held(m.connLock)
+//@   requires wfMux(m) && !held(m.writeLock) && !held(m.connLock) && rheld(m.connLock) == 0
 //@   modifies lock(m.writeLock), m.err, lock(m.errOnce), lock(m.closeOnce), lock(m.connLock), alllocks("multiplex.conn:closeOnce"), allchans("chan error"), chanstate(m.doneC)
 //@   modifies calls("chan.close"), calls("net.Conn.Close"), calls("net.Conn.Write"), calls("(encoding/binary.bigEndian).PutUint32")
 //@   at call net.Conn.Write assert held(m.writeLock) && arg0 == m.trunk
@@ -103,3 +103,16 @@ package multiplex
 //@                      && m.conns[id].id == id && m.conns[id].mux == m && chancap(m.conns[id].readC) == m.qlen && chancap(m.conns[id].doneC) == 1
 //@                      && !chanclosed(m.conns[id].doneC) && !done(m.conns[id].closeOnce) && m.conns[id].doneC != nil && m.conns[id].readC != nil
 //@   ensures [lock]     !held(m.connLock)
+
+// ---------------------------------------------------------------------------
+// The reader goroutine (sequential view): lock typestate and fail-stop exits
+// ---------------------------------------------------------------------------
+// Every exit has either seen doneC closed or has called Close itself; the connection table
+// lock is never held across queueing or across Close (Close takes it exclusively).
+//@ func mux.reader
+//@   props C07 C10 C11
+//@   requires wfMux(m) && !held(m.connLock) && rheld(m.connLock) == 0
+//@   modifies @writes
+//@   ensures [unlocked] !held(m.connLock) && rheld(m.connLock) == 0
+//@   ensures [failstop] done(m.closeOnce)
+//@   loop 1 invariant wfMux(m) && !held(m.connLock) && rheld(m.connLock) == 0
